@@ -270,6 +270,7 @@ def run(repo: Repo, rep: Report, tier: str) -> None:
     delegate(repo, rep, tier, "C05", ("abort-once", "abort-not-after-release", "release-only-established"), "provider-survives", "the provider thread dies with InvalidEventError: EVT_CONN_CLOSE is never emitted, the transition history stops short of Sta1 and EVT_ABORTED can follow EVT_RELEASED")
     delegate(repo, rep, tier, "C03", ("tls-portable", "short-is-closed"), "provider-survives", "on a TLS connection the provider thread leaves through its internal-error exit: an A-ABORT is written without EVT_PDU_SENT, EVT_CONN_CLOSE is never emitted and the history stops in Sta6")
     delegate(repo, rep, tier, "C01", ("none-not-falsy", "variant-selection"), "provider-survives", "a legal falsy parameter (an empty user-identity server response) selects the wrong item kind; the conversion raises inside the state-machine action that sends the A-ASSOCIATE PDU, the provider thread dies in Sta3: EVT_ESTABLISHED is followed by no PDU-sent and no connection-close notification")
+    check_reactor_exit_kills(repo, rep, "provider-survives")
     delegate(repo, rep, tier, "C24", ("reader-woken",), "provider-survives", "the provider thread blocks inside an abort action (a bounded DIMSE queue that is full) or leaves the DIMSE user waiting: the history stops before Sta1 - EVT_ABORTED without the EVT_CONN_CLOSE that must follow it")
     delegate(repo, rep, tier, "C04", ("artim-run-state",), "provider-survives", "the provider thread dies with InvalidEventError in an established association: EVT_CONN_CLOSE is never emitted and the transition history stops in Sta6")
 
@@ -372,3 +373,31 @@ def check_stop_only_idle(repo: Repo, rep: Report, rule: str = "close-once-last")
         rep.check(ok, rule, fq, st, f"the provider loop is stopped while the state machine may be in {sorted(states) if states else 'any state'}: only in Sta1 have the closing actions run - stopping earlier (e.g. in Sta13, waiting for the peer to close) ends the thread without EVT_CONN_CLOSE and without closing the socket", mod=dul, node=st)
     rep.floor("_kill_thread = True sites", n, 3)
     return n
+
+
+
+def check_reactor_exit_kills(repo, rep, rule: str) -> None:
+    """The association's reactor thread ends only through kill(), which waits until the state machine is back in
+    Sta1 before the provider is stopped. An exit that relies on abort() / release() having done so is wrong when
+    the idle timeout fires while the provider thread is inside a notification handler (Association.abort is then
+    the non-blocking variant): the acceptor's run() shuts the socket down under the state machine, the A-ABORT is
+    announced with EVT_PDU_SENT but never reaches the wire."""
+    from ..cfg import CFG
+
+    am = repo.mod("association")
+    fn = repo.func("association", "Association._run_reactor")
+    fq = "association.Association._run_reactor"
+    cfg = CFG(fn, body=body_nodoc(fn), local_exc_only=True)
+
+    def kills(nd):
+        return nd.ast is not None and nd.kind in ("stmt", "finally") and any(isinstance(c, ast.Call) and norm(c.func) == "self.kill" for c in walk_no_nested(nd.ast))
+
+    rets = [nd for nd in cfg.nodes if nd.kind == "stmt" and isinstance(nd.ast, ast.Return)]
+    rep.need(rets, f"{fq}: no return in the reactor loop")
+    n = 0
+    for r in rets:
+        n += 1
+        ok, path = cfg.must_pass(cfg.entry, kills, {r.id}, labels_excluded=("exc",))
+        where = " -> ".join(str(p_.line) for p_ in path[-5:] if p_.line)
+        rep.check(ok, rule, fq, r.ast, f"the reactor returns (lines {where}) without kill(): nothing waits for the state machine to reach Sta1 before the association thread ends - when the exit was an idle timeout taken while the provider thread runs a notification handler, abort() is the non-blocking one, the socket is shut down under the state machine and the A-ABORT that EVT_PDU_SENT announces is never written", mod=am, node=r.ast)
+    rep.floor("exits of the association reactor", n, 3)
